@@ -13,6 +13,7 @@ import (
 	"os/exec"
 	"path/filepath"
 	"regexp"
+	"strconv"
 	"strings"
 	"sync"
 	"time"
@@ -515,50 +516,90 @@ func glueStream(r *Rng, st *Stats, n int, tier string) []string {
 
 var reStartEnd = regexp.MustCompile(`^(\d+):(start|end)$`)
 
-func startEndEvents(log []string) string {
-	var out []string
-	for _, l := range log {
-		if m := reStartEnd.FindStringSubmatch(l); m != nil {
-			k := 0
-			if m[2] == "end" {
-				k = 1
-			}
-			out = append(out, fmt.Sprintf("(%d, %s)", k, m[1]))
-		}
-	}
-	return "[" + strings.Join(out, "; ") + "]"
-}
-
 func evalOrderCase(j glueJob, o glueOutcome) (string, bool) {
 	g := j.g
 	cfg := j.cfgs[0]
 	fm := map[string]config.Format{"esm": config.FormatESModule, "cjs": config.FormatCommonJS, "iife": config.FormatIIFE}[cfg.Format]
-	d, _, _ := scanAndDump(j.files, j.entry, linkCfg{fm, config.PlatformNode})
+	lc := linkCfg{fm, config.PlatformNode}
+	d, _, linkMsgs := scanAndDump(j.files, j.entry, lc)
 	if d == nil || d.HasErrors {
 		return "", false
 	}
+	linkCase, ok := dumpToCoq(d, linkMsgs, lc)
+	if !ok {
+		return "", false
+	}
+	// everything is expressed in the linker's source indices, so that the graph the model derives
+	// from the import records and its own wrap flags can be compared with this one
 	wrap := map[string]bool{}
+	idx := map[string]int{}
+	maxIdx := 0
+	// the same path can be linked twice (a JSON file imported with and without import attributes):
+	// then module ids do not determine source indices and only the two traces are compared
+	unique := true
+	modPaths := map[string]bool{}
+	for _, md := range g.mods {
+		modPaths[md.path] = true
+	}
 	for _, f := range d.Files {
+		if _, dup := idx[f.Path]; dup || (f.Index != 0 && !modPaths[f.Path]) {
+			unique = false
+		}
 		wrap[f.Path] = f.Wrap != 0
+		idx[f.Path] = int(f.Index)
+		if int(f.Index) > maxIdx {
+			maxIdx = int(f.Index)
+		}
+	}
+	reach := map[int]bool{}
+	for _, x := range d.Reachable {
+		reach[int(x)] = true
+	}
+	tr := func(id int) int {
+		if x, ok := idx[g.mods[id].path]; ok {
+			return x
+		}
+		return maxIdx + 1 + id
 	}
 	zl := func(xs []int) string {
 		var s []string
 		for _, x := range xs {
-			s = append(s, fmt.Sprint(x))
+			s = append(s, fmt.Sprint(tr(x)))
 		}
 		return "[" + strings.Join(s, ";") + "]"
 	}
-	var mods []string
+	mods := make([]string, maxIdx+1)
+	for i := range mods {
+		mods[i] = "EM false true [] [] [] false"
+	}
 	for _, md := range g.mods {
+		x, ok := idx[md.path]
+		if !ok || !reach[x] {
+			continue
+		}
 		var static, req []int
 		if md.kind == modESM {
 			static = g.staticDeps(md.id)
 		} else {
 			req = md.requires
 		}
-		mods = append(mods, fmt.Sprintf("EM %s %s %s %s %s %s", CBool(md.kind == modESM), CBool(md.kind == modJSON), zl(static), zl(req), zl(md.dyn), CBool(wrap[md.path])))
+		mods[x] = fmt.Sprintf("EM %s %s %s %s %s %s", CBool(md.kind == modESM), CBool(md.kind == modJSON), zl(static), zl(req), zl(md.dyn), CBool(wrap[md.path]))
 	}
-	return fmt.Sprintf("([%s], %d, %s, %s)", strings.Join(mods, "; "), g.entry, startEndEvents(o.natLog), startEndEvents(o.bunLog)), true
+	events := func(log []string) string {
+		var out []string
+		for _, l := range log {
+			if m := reStartEnd.FindStringSubmatch(l); m != nil {
+				k := 0
+				if m[2] == "end" {
+					k = 1
+				}
+				id, _ := strconv.Atoi(m[1])
+				out = append(out, fmt.Sprintf("(%d, %d)", k, tr(id)))
+			}
+		}
+		return "[" + strings.Join(out, "; ") + "]"
+	}
+	return fmt.Sprintf("(%s,\n  %s, [%s], %d, %s, %s)", linkCase, CBool(unique), strings.Join(mods, "; "), tr(g.entry), events(o.natLog), events(o.bunLog)), true
 }
 
 // ---- non-JavaScript assets: the imported value is exactly the file's bytes / text / JSON value ----
